@@ -6,7 +6,7 @@ import C01 as c01
 
 PROP = 'C04'
 VARIANTS = ['apply', 'map', 'imap', 'imapu']
-REPLAYERS = {'pool.Pool._join_exited_workers': 'replayers/join_exited.py',
+REPLAYERS = {'pool.ApplyResult._ack': 'replayers/ack_owner.py', 'pool.Pool._join_exited_workers': 'replayers/join_exited.py',
              'pool.Pool.mark_as_worker_lost': 'replayers/kinds_lost.py', 'pool.MapResult._set': 'replayers/kinds_lost.py'}
 
 ASSUMPTIONS = [
@@ -45,8 +45,14 @@ def build(w, variant='apply'):
     if variant != 'apply':
         import c04_kinds
         return c04_kinds.build_kinds(w, variant)
+    owner_record = []
     for c in c01.build(w):
         w.contracts.setdefault(c.qualname, c)
+        if c.qualname.endswith('ApplyResult._ack'):
+            # who is recorded as the owner of a job is what the tick matches exited workers against (C01's contract of
+            # the parent side of the handshake: owner_recorded)
+            c.prop = PROP
+            owner_record.append(c)
     w.classes['WorkerP'].methods.update({'join': worker_join, '_is_alive': worker_is_alive})
     w.classes['Pool'].fields.update({'_worker_handler': ValS})
     cache = 'self._cache'
@@ -195,7 +201,7 @@ def build(w, variant='apply'):
                                   'lost_jobs_fail_after_the_grace_period': GRACE},
                 'MemoryError': {'t': 'True'}, 'AnyException': {'t': 'True'}, 'AnyBaseException': {'t': 'True'}},
     )
-    return [join]
+    return [join] + owner_record
 
 MANIFEST_ENTRY = {
     'text': 'Proof (unbounded, four loop invariants) of Pool._join_exited_workers for apply jobs: a job is marked with '
@@ -207,7 +213,8 @@ MANIFEST_ENTRY = {
             'a reaped worker gets one (or is terminated, for terminate_job); a loss record, once set, is never replaced -- its '
             'detection time and exit status survive later ticks (refuted on the tree before /repo a163998: D13, reaping any other '
             'worker re-armed the grace period and reset the status to 0; fixed).  mark_as_worker_lost fails exactly that job, '
-            'observably.',
+            'observably.  The owner record itself (ApplyResult._ack, C01\'s contract of the parent side of the handshake): unless the '
+            'job is refused, the accepting worker and the acceptance time are recorded, also when the accept callback raises.',
     'note': 'The tick itself (_join_exited_workers) is proved for apply handles.  For the other handle kinds the two places where '
             'ownership and the loss record are handled are under contract (variants map / imap / imapu): MapResult._set clears the '
             'owner of a delivered chunk (refuted on the pinned tree -- D3, a recycled worker failed the whole map -- replayed, fixed '
